@@ -68,9 +68,11 @@ wrap_line = partial(wrap_line_base, pad_func=pad_fortran)
 
 def make_fortran_identifier_from_name(name):
     """Like :func:`dagrt.codegen.utils.make_identifier_from_name`, but
-    accounts for Fortran names being case-insensitive.
+    accounts for Fortran names being case-insensitive and limited to 63
+    characters (leaving room for prefixes and for the suffixes added to
+    make names unique).
     """
-    return make_identifier_from_name(name).lower()
+    return make_identifier_from_name(name).lower()[:40]
 
 
 class FortranNameManager:
